@@ -340,7 +340,7 @@ Example C09_chunk_ranges_source_ex :
 Proof. reflexivity. Qed.
 
 (* ===== (T) the SOURCE of the scanner loops, translated on every run ========= *)
-(* coq/Gen/C09_Src.v holds the loops of split_iter, unique_iter and bucketize
+(* coq/Gen/C09_Src.v holds the loops of split_iter, unique_iter, bucketize and redundant
    as harness/translators/c09_loops.py reads them from /repo's current source
    (the argument-dispatch preludes are compared literally).  They are the
    model loops, for all inputs - so the theorems above (str.split semantics,
@@ -364,6 +364,19 @@ Theorem C09_bucketize_source_is_model :
     Gbucketize src key vt kf_none kf = m_bucketize key vt (fun k => kf_none || kf k) src.
 Proof. exact gen_bucketize_is_model. Qed.
 Print Assumptions C09_bucketize_source_is_model.
+
+(* redundant is translated once per value of groups (the two results have
+   different types); `k = key_func(i) if key else i` with key_truthy = bool(key) *)
+Theorem C09_redundant_source_is_model :
+  forall src key_truthy key_func,
+    Gredundant_groups_false src key_truthy key_func
+    = m_redundant (fun i => if key_truthy then key_func i else i) src
+    /\ Gredundant_groups_true src key_truthy key_func
+       = m_redundant_groups (fun i => if key_truthy then key_func i else i) src.
+Proof.
+  exact (fun src kt kf => conj (gen_redundant_false_is_model kt kf src) (gen_redundant_true_is_model kt kf src)).
+Qed.
+Print Assumptions C09_redundant_source_is_model.
 
 Example C09_split_iter_source_ex :
   Gsplit_iter [1; 0; 0; 2; 0; 3; 0] (Nat.eqb 0) true false 1 = [[1]; [2; 0; 3; 0]]
